@@ -299,10 +299,24 @@ pub fn next_solution<'a>(sn: Rc<RefCell<SolutionNode<'a>>>)
 
                 let pred_name = sn_ref.goal.key();
                 let rule = get_rule(sn_ref.kb, &pred_name, sn_ref.rule_index);
+                #[cfg(feature = "verif-hooks")]
+                if let Some(stored) = sn_ref.kb.get(&pred_name) {
+                    crate::verif_hooks::emit(&crate::verif_hooks::HookEvent::Rename {
+                        predicate: &pred_name, index: sn_ref.rule_index,
+                        stored: &stored[sn_ref.rule_index], renamed: &rule,
+                        goal: cmplx, ss: &sn_ref.ss,
+                        id_before: fallback_id, id_after: get_var_id(),
+                    });
+                }
                 sn_ref.rule_index += 1;
 
                 let head = rule.get_head();
                 let solution = head.unify(&cmplx, &sn_ref.ss);
+                #[cfg(feature = "verif-hooks")]
+                crate::verif_hooks::emit(&crate::verif_hooks::HookEvent::HeadUnify {
+                    head: &head, goal: cmplx,
+                    ss_in: &sn_ref.ss, ss_out: solution.as_deref(),
+                });
 
                 match solution {
                     None => { set_var_id(fallback_id); },  // Restore fallback ID.
